@@ -19,8 +19,15 @@ META = {
                   "have been delivered; forwarded = first min(total, n) bytes, reported = len(b). Every complete path of the "
                   "generator specs (all Read/Write sizes x all answers of the wrapped object) is replayed on the real code and "
                   "compared per call: slice length passed down, bytes, count, error identity (nil / io.EOF / injected error by == / "
-                  "*LimitError via errors.As with Limit==n). Long seeded random histories (n up to 10^6) are validated back "
-                  "against the same actions.",
+                  "*LimitError via errors.As with Limit==n). COMPOSITION: LimitChain.tla / TruncChain.tla model 2-3 readers / "
+                  "writers nested in each other (reads and writes through any level, interleaved): the source is never asked "
+                  "beyond any budget on the path, inner levels are charged what is read through outer ones, an inner "
+                  "*LimitError arrives with the inner limit; all their paths are replayed on directly nested real objects "
+                  "(and with io.TeeReader / io.LimitReader / io.MultiReader / io.MultiWriter in between). DRIVER MODES: "
+                  "io.Copy, CopyBuffer, CopyN, ReadAll into scripted failing/short destinations followed by direct Reads, "
+                  "io.Copy / WriteString / Fprintf into the writer, and every optional interface found by type assertion "
+                  "are validated by TLC through what reaches the wrapped object (DriverRead, Supply/ForwardPending). Long "
+                  "seeded random histories (n up to 10^6) are validated back against the same actions.",
     "level_note": "Wrapped readers returning k > len(p) or k < 0 violate io.Reader and are out of scope; n is kept below 2^31 "
                   "(TLC integers); the harness's byte-to-position mapping (locate) is trusted.",
 }
@@ -47,10 +54,19 @@ def run(ctx):
     ctx.rule = ("G: every complete path of LimitReaderGen/TruncWriterGen (all call sizes x all answers of the wrapped "
                 "reader/writer; thin alphabet to depth 5/7, rich alphabet to depth 3/4, plus simulated long paths) replayed "
                 "call by call on ioutil.LimitReader / ioutil.TruncatedWriter with a scripted, recording reader/writer; "
-                "T: seeded random histories (n <= 10^6) recorded from the real code and validated by TLC with IOTrace.tla. "
+                "chains of 2-3 nested real readers/writers (LimitChain/TruncChain) replayed the same way; "
+                "T: seeded random histories (n <= 10^6) recorded from the real code and validated by TLC with IOTrace.tla, "
+                "including driver modes (io.Copy/CopyBuffer/CopyN/ReadAll into failing destinations followed by direct Reads; "
+                "io.Copy/WriteString/Fprintf into the writer; optional interfaces found at run time). "
                 "distinct_nontrivial = distinct replayed paths with at least one call")
     ctx.assumptions += ["the wrapped reader obeys 0 <= k <= len(p) (io.Reader contract); anything else is out of scope",
                         "limits below 2^31 (TLC integers)",
+                        "composition: chains of 2-3 real readers/writers nested directly and with transparent std wrappers "
+                        "(io.TeeReader, io.LimitReader(huge), io.MultiReader(one) on EOF-free paths, io.MultiWriter(one)) "
+                        "in between; bufio is not transparent and not used",
+                        "driver modes (io.Copy, CopyBuffer, CopyN, ReadAll, WriteString, Fprintf, optional interfaces found "
+                        "by type assertion) are checked through what reaches the wrapped reader/writer and the direct calls "
+                        "that follow; the drivers' own results are constrained only where C15 speaks (limit error, len)",
                         "where the statement is silent the model follows the code: w's error is returned with len(b); "
                         "w is not called once the limit is used up; a zero-length call is passed down while room remains"]
 
@@ -103,17 +119,59 @@ def run_g(ctx, d, q):
         wgen("wgen_rich_d4", rset(0, 4), rset(0, 5), '{"nil", "E1", "E2"}', 4)
     exhaustive_n = count_lines(d / "reader_vectors.ndjson") + count_lines(d / "writer_vectors.ndjson")
 
-    # 3. simulated long paths with a richer alphabet (every prefix is emitted and replayed).
+    # 3. thorough: simulated long paths with a richer alphabet (every prefix is emitted and replayed).
     write_cfg(d / "rsim.cfg", "RGSpec",
               {"Limits": "{0, 1, 5, 8, 13}", "BufLens": rset(0, 9), "StreamLens": "{0, 4, 8, 13, 20}", "RErrs": ERRS4,
                "RMaxSteps": 24, "EmitAll": "TRUE"},
               invariants=["REmit"] + R_INV[1:])
-    ctx.tlc(d, "LimitReaderGen", "rsim.cfg", simulate=100 if q else 600, depth=25, workers=4, label="reader-sim")
+    if not q:
+        ctx.tlc(d, "LimitReaderGen", "rsim.cfg", simulate=600, depth=25, workers=4, label="reader-sim")
     write_cfg(d / "wsim.cfg", "WGSpec",
               {"WLimits": "{0, 1, 5, 8, 13}", "WriteLens": rset(0, 9), "WErrs": '{"nil", "E1", "E2"}',
                "WMaxSteps": 16, "EmitAll": "TRUE"},
               invariants=["WEmit"] + W_INV[1:])
-    ctx.tlc(d, "TruncWriterGen", "wsim.cfg", simulate=100 if q else 600, depth=17, workers=4, label="writer-sim")
+    if not q:
+        ctx.tlc(d, "TruncWriterGen", "wsim.cfg", simulate=600, depth=17, workers=4, label="writer-sim")
+
+    # 3b. COMPOSITION: chains of 2-3 limited readers / truncating writers, read or written through any level.
+    def cgen(name, depths, limits, bufs, errs, depth):
+        write_cfg(d / (name + ".cfg"), "CGSpec",
+                  {"CDepths": depths, "CLimits": limits, "CBufLens": bufs, "CRErrs": errs, "CSLen": 6,
+                   "CMaxSteps": depth, "EmitAll": "FALSE"},
+                  invariants=["CEmit", "CTypeOK", "CRemInv", "CInnerAdvances", "CSourceBounded", "CErrPassThrough",
+                              "CPrefix"])
+        return ctx.tlc(d, "LimitChainGen", name + ".cfg", label=name, timeout=1500)
+
+    def tgen(name, depths, limits, lens, depth):
+        write_cfg(d / (name + ".cfg"), "TGSpec",
+                  {"TDepths": depths, "TLimits": limits, "TWriteLens": lens, "TWErrs": '{"nil", "E1"}',
+                   "TMaxSteps": depth, "EmitAll": "FALSE"},
+                  invariants=["TEmit", "TTypeOK2", "TEachLevel", "TForwarded", "TReportsLen", "TErrPass"])
+        return ctx.tlc(d, "TruncChainGen", name + ".cfg", label=name, timeout=1500)
+
+    if q:
+        cgen("rchain_d3", "{2, 3}", "{1, 2}", "{0, 1, 3}", '{"nil", "EOF"}', 3)
+        tgen("wchain_d3", "{2, 3}", "{1, 2}", "{0, 1, 3}", 3)
+    else:
+        cgen("rchain_d3", "{2, 3}", "{0, 1, 2}", "{0, 1, 3}", ERRS3, 3)
+        cgen("rchain_d4", "{2}", "{0, 1, 2}", "{0, 1, 3}", '{"nil", "EOF"}', 4)
+        tgen("wchain_d3", "{2, 3}", "{0, 1, 2, 3}", "{0, 1, 2, 4}", 3)
+        tgen("wchain_d5", "{2}", "{1, 2, 3}", "{0, 1, 3}", 5)
+        # exhaustive over all call sequences (VIEW without the step counter) for the reader chain
+        write_cfg(d / "rchain_mc.cfg", "CSpec",
+                  {"CDepths": "{2, 3}", "CLimits": rset(0, 3), "CBufLens": "{0, 1, 2, 4}", "CRErrs": ERRS3, "CSLen": 5,
+                   "CMaxSteps": 1000},
+                  invariants=["CTypeOK", "CRemInv", "CInnerAdvances", "CSourceBounded", "CErrPassThrough", "CPrefix"],
+                  view="CView")
+        ctx.tlc(d, "LimitChain", "rchain_mc.cfg", label="reader-chain-mc")
+    ctx.vh(["c15", "replay-rchain", d / "rchain_vectors.ndjson", ctx.scratch / "rchain.res"])
+    c1 = ctx.collect(ctx.scratch / "rchain.res")
+    ctx.vh(["c15", "replay-wchain", d / "wchain_vectors.ndjson", ctx.scratch / "wchain.res"])
+    c2 = ctx.collect(ctx.scratch / "wchain.res")
+    ctx.evaluations += c1["steps"] + c2["steps"]
+    ctx.distinct += c1["distinct_nontrivial"] + c2["distinct_nontrivial"]
+    ctx.traces += c1["replayed"] + c2["replayed"]
+    ctx.extra["chain_paths_replayed"] = {"readers": c1["replayed"], "writers": c2["replayed"]}
 
     ctx.vh(["c15", "replay-reader", d / "reader_vectors.ndjson", ctx.scratch / "reader.res"])
     s1 = ctx.collect(ctx.scratch / "reader.res")
@@ -138,6 +196,8 @@ def run_t(ctx, d, q):
     ctx.traces += s3["histories"] - 1
     ctx.evaluations += s3["events"]
     ctx.extra["trace_events_validated"] = s3["events"]
+    ctx.extra["driver_mode_histories"] = s3["driver_histories"]
+    ctx.extra["optional_interfaces_found"] = s3["optional_interfaces"]
 
 
 def apalache_extra(ctx, d):
@@ -173,6 +233,18 @@ def replay(ctx, path):
     print(json.dumps(r, indent=1)[:6000])
     det = r.get("detail") or {}
     pathsteps = det.get("path") if isinstance(det, dict) else None
+    if isinstance(det, dict) and det.get("chain_path"):
+        d = ctx.spec_copy("io")
+        f = d / "one.ndjson"
+        f.write_text(json.dumps({"lims": det["limits"], "steps": det["chain_path"]}) + "\n")
+        mode = "replay-rchain" if r["key"].startswith("LimitReader chain") else "replay-wchain"
+        ctx.vh(["c15", mode, f, ctx.scratch / "one.res"])
+        ctx.collect(ctx.scratch / "one.res")
+        for m in ctx.mismatches:
+            print("STILL FAILS (directly nested): %s: %s" % (m["key"], m["what"]))
+        if not ctx.mismatches:
+            print("the recorded chain path now agrees with the specification (directly nested objects)")
+        return 1 if ctx.mismatches else 0
     if not pathsteps:
         print("re-run: bin/check C15 quick  (the failing history is enumerated again by the generator / recorder)")
         return 0
